@@ -98,14 +98,32 @@ def oracle(case, mline, iline):
         bad.append(("limit-not-enforced", "a length prefix above 2^20 / an extension message above 2^15 bytes or of unknown type "
                                           "did not close the connection"))
     wrong = [d for d in d1 if d != spec]
+    d1cmp = d1
+    if " xr=" in case and " xr=- " not in case:
+        # a complete extension message waiting for the previous reply to be written (model digest st=EXT:0, equal to
+        # the implementation's) is not a stall: the write side is held by the harness at that point. Such deliveries
+        # (event lists that do not end with a write-ready event) are compared with the model only.
+        md1 = mline.partition(" || ")[0].split(" / ")
+        waiting = [k < len(md1) and md1[k] == d and "st=EXT:0" in d for k, d in enumerate(d1)]
+        wrong = [d for k, d in enumerate(d1) if d != spec and not waiting[k]]
+        d1cmp = [d for k, d in enumerate(d1) if not waiting[k]]
     if wrong and spec not in ("FAULT", "OUTOFFUEL", ""):
         kl = "handover-unparsed" if " ho=-" not in case else (
             "meta-bitfield-stall" if case.startswith("role=meta") and any("st=SKIP" in d for d in wrong) else "stream-effect-differs-from-decode")
         bad.append((kl, "after quiescence the connection state is not the state the delivered byte stream denotes "
                         "(complete messages left undispatched): got '%s' want '%s'" % (wrong[0], spec)))
-    if len(set(d1)) > 1:
+    if len(set(d1cmp)) > 1:
         bad.append(("segmentation-dependent", "state after quiescence differs between segmentations of the same stream"))
-    if len(set(d2)) > 1:
+    d2cmp = d2
+    if " xr=" in case and " xr=- " not in case:
+        # these deliveries differ in WHERE the write-ready events fall, not only in the segmentation: the relative order
+        # of independent write-side messages (CHOKE/UNCHOKE vs an extension reply) legitimately follows it. Compared as
+        # multisets, and only for deliveries that end with a write-ready event.
+        def norm(x):
+            a, _, r = x.partition(" resp=")
+            return a + " resp=" + ",".join(sorted(r.split(",")))
+        d2cmp = [norm(x) for k, x in enumerate(d2) if not (k < len(waiting) and waiting[k])]
+    if len(set(d2cmp)) > 1:
         bad.append(("segmentation-dependent-responses", "responses / liveness after releasing the writer differ between segmentations"))
     return bad
 
